@@ -29,7 +29,7 @@ func init() {
 		Workers:     4,
 		Race:        true,
 		CaseTimeout: 200e9,
-		Rule: "real parallel executions under the Go race detector: 2-8 goroutines issue operations and transactions (values tagged goroutine x counter) on ONE datatype of each type while a background goroutine syncs it with the real service and, in half of the rounds, a second client's operations arrive; yields / sleeps are injected at the BeginTransaction / unlock hook points with seeded probabilities; a pack observer builds push packs in a tight loop meanwhile. Monitors: every pack the observer or a sync builds holds whole transaction units only; conservation (counter = sum of the deltas of calls that returned success, plus the remote deltas; for the other types the final state equals the replay of the stored log, which holds exactly one operation per successful call); exactly-once and identifier order (the client's stored operations carry seq 1..n without gap or repeat and strictly increasing clocks); transaction contiguity (each TRANSACTION header is followed by exactly NumOfOps-1 operations, all carrying tags of the issuing goroutine); isolation inside a transaction body (a counter read-modify-read sequence sees only its own writes; the second client's recognisable units - {+D,-D} pairs on a counter, six keys written to one value on a map / document - are never seen half-applied by reads inside a local transaction); linearizability of return values in rounds without a second client (porcupine: counter IncreaseBy -> new value; map Put/Remove -> previous value, per key); no deadlock / panic (watchdog, worker crash); race-detector reports attributed to orda code, keyed by the unordered pair of innermost orda functions; " +
+		Rule: "real parallel executions under the Go race detector: 2-8 goroutines issue operations and transactions - a quarter of which are aborted by their own body after doing all their calls - (values tagged goroutine x counter; documents: also through child handles kept from inside a transaction body) on ONE datatype of each type while a background goroutine syncs it with the real service and, in half of the rounds, a second client's operations arrive; yields / sleeps are injected at the BeginTransaction / unlock hook points with seeded probabilities; a pack observer builds push packs in a tight loop meanwhile. Monitors: every pack the observer or a sync builds holds whole transaction units only; conservation (counter = sum of the deltas of calls that returned success, plus the remote deltas; for the other types the final state equals the replay of the stored log, which holds exactly one operation per successful call); exactly-once and identifier order (the client's stored operations carry seq 1..n without gap or repeat and strictly increasing clocks); transaction contiguity (each TRANSACTION header is followed by exactly NumOfOps-1 operations, all carrying tags of the issuing goroutine); isolation inside a transaction body (a counter read-modify-read sequence sees only its own writes; the second client's recognisable units - {+D,-D} pairs on a counter, six keys written to one value on a map / document - are never seen half-applied by reads inside a local transaction); linearizability of return values in rounds without a second client (porcupine: counter IncreaseBy -> new value; map Put/Remove -> previous value, per key); no deadlock / panic (watchdog, worker crash); race-detector reports attributed to orda code, keyed by the unordered pair of innermost orda functions; " +
 			"non-trivial = >= 3 goroutines completed >= 5 calls each while >= 1 background sync applied a response; distinct = hash of the emitted (goroutine-tag) sequence, i.e. the interleaving actually observed",
 		Assumptions: []string{
 			"the application goroutines use the public mutators and transactions; getters are called only inside transaction bodies or after the goroutines have joined",
@@ -131,6 +131,13 @@ func runC20(c *core.Case) *core.Result {
 	w.cls = append(w.cls, cl)
 	d := cl.Open(key, typ, bed.Create)
 	cl.Register()
+	setupOps := int64(0)
+	if doc, ok := d.DT.(orda.Document); ok {
+		// an object child for the handles that goroutines keep from inside their transactions
+		if _, e := doc.PutToObject("box", map[string]interface{}{"init": "x"}); e == nil {
+			setupOps = 1
+		}
+	}
 	if _, sig, msg := w.sync(cl); sig != "" {
 		return verdict(c, "setup:", sig, msg)
 	}
@@ -151,7 +158,11 @@ func runC20(c *core.Case) *core.Result {
 	var hmu sync.Mutex
 	var hist []porcupine.Operation
 	var clock int64
-	var okCalls, txCommitted, txOps int64
+	var okCalls, txCommitted, txOps, txAborted, keptHandleCalls int64
+	defer func() {
+		c.Count("transactions_aborted_by_their_body", atomic.LoadInt64(&txAborted))
+		c.Count("calls_through_a_child_handle_kept_from_a_transaction", atomic.LoadInt64(&keptHandleCalls))
+	}()
 	var sumDeltas int64
 	var violation atomic.Value
 	fail := func(sig, format string, a ...interface{}) {
@@ -171,11 +182,13 @@ func runC20(c *core.Case) *core.Result {
 			}()
 			rr := newRand(seedJ + int64(gi)*7919)
 			tag := func(n int) string { return fmt.Sprintf("g%d-%d", gi, n) }
+			var kept orda.Document // documents: a child handle obtained inside a transaction body
 			for n := 0; n < calls; n++ {
 				if violation.Load() != nil {
 					return
 				}
 				inTx := !noTx && rr.Intn(6) == 0
+				abort := inTx && rr.Intn(4) == 0 // the body does everything and then returns an error
 				switch t := d.DT.(type) {
 				case orda.Counter:
 					delta := int32(rr.Intn(9) - 4)
@@ -200,12 +213,17 @@ func runC20(c *core.Case) *core.Result {
 									fail("tx-interleaved:counter", "inside a transaction body of goroutine %d: Get()=%d, IncreaseBy(%d) returned %d, Get() afterwards %d - another goroutine's call interleaved", gi, before, delta, nv, tx.Get())
 								}
 							}
+							if abort {
+								return errAbort // nothing of this body may remain: not in the value, not in the pending list
+							}
 							return nil
 						})
 						if err == nil {
 							atomic.AddInt64(&sumDeltas, int64(delta)*int64(k))
 							atomic.AddInt64(&txCommitted, 1)
 							atomic.AddInt64(&txOps, int64(k))
+						} else if abort {
+							atomic.AddInt64(&txAborted, 1)
 						}
 						continue
 					}
@@ -234,12 +252,19 @@ func runC20(c *core.Case) *core.Result {
 							if got := tx.Get(k); got != n1 {
 								fail("tx-interleaved:map", "inside a transaction body of goroutine %d: Put(%s,%s) then Get = %v", gi, k, n1, got)
 							}
-							_, e := tx.Put(k, n2)
-							return e
+							if _, e := tx.Put(k, n2); e != nil {
+								return e
+							}
+							if abort {
+								return errAbort
+							}
+							return nil
 						})
 						if err == nil {
 							atomic.AddInt64(&txCommitted, 1)
 							atomic.AddInt64(&txOps, 2)
+						} else if abort {
+							atomic.AddInt64(&txAborted, 1)
 						}
 						continue
 					}
@@ -272,11 +297,16 @@ func runC20(c *core.Case) *core.Result {
 							if e != nil || len(vs) != 2 || vs[0] != tag(n*10) || vs[1] != tag(n*10+1) {
 								fail("tx-interleaved:list", "inside a transaction body of goroutine %d: InsertMany(0,a,b) then GetMany(0,2) = %v (%v)", gi, vs, e)
 							}
+							if abort {
+								return errAbort
+							}
 							return nil
 						})
 						if err == nil {
 							atomic.AddInt64(&txCommitted, 1)
 							atomic.AddInt64(&txOps, 1)
+						} else if abort {
+							atomic.AddInt64(&txAborted, 1)
 						}
 						continue
 					}
@@ -314,13 +344,33 @@ func runC20(c *core.Case) *core.Result {
 							if _, e := tx.PutToObject(fmt.Sprintf("g%d", gi), tag(n*10)); e != nil {
 								return e
 							}
-							_, e := tx.PutToObject(fmt.Sprintf("k%d", rr.Intn(3)), tag(n*10+1))
-							return e
+							if _, e := tx.PutToObject(fmt.Sprintf("k%d", rr.Intn(3)), tag(n*10+1)); e != nil {
+								return e
+							}
+							// a child handle obtained inside the body is kept and used after the body has ended
+							if h, e := tx.GetFromObject("box"); e == nil && h != nil {
+								kept = h
+							}
+							if abort {
+								return errAbort
+							}
+							return nil
 						})
 						if err == nil {
 							atomic.AddInt64(&txCommitted, 1)
 							atomic.AddInt64(&txOps, 2)
+						} else if abort {
+							atomic.AddInt64(&txAborted, 1)
 						}
+						continue
+					}
+					if kept != nil && rr.Intn(3) == 0 {
+						// through the kept child handle, outside any transaction of this goroutine
+						if _, e := kept.PutToObject(fmt.Sprintf("b%d", gi), tag(n)); e == nil {
+							atomic.AddInt64(&okCalls, 1)
+							atomic.AddInt64(&keptHandleCalls, 1)
+						}
+						atomic.AddInt64(&completed[gi], 1)
 						continue
 					}
 					if _, e := t.PutToObject(fmt.Sprintf("k%d", rr.Intn(3)), tag(n)); e == nil {
@@ -529,7 +579,7 @@ func runC20(c *core.Case) *core.Result {
 			mine = append(mine, o.GetOperation())
 		}
 	}
-	wantOps := 1 + atomic.LoadInt64(&okCalls) + atomic.LoadInt64(&txCommitted) + atomic.LoadInt64(&txOps)
+	wantOps := 1 + setupOps + atomic.LoadInt64(&okCalls) + atomic.LoadInt64(&txCommitted) + atomic.LoadInt64(&txOps)
 	if int64(len(mine)) != wantOps {
 		return c.Violation("calls-vs-operations:"+typ, "%d calls and %d transactions (%d operations) returned success, so %d operations should have been queued and stored, but %d are", okCalls, txCommitted, txOps, wantOps, len(mine))
 	}
